@@ -39,6 +39,9 @@ CHECKS = {
  "C12": ("preference monitor at type_transform: subset/agreement relation between flag sets + independent promise predicates; hostile pool x targets exhaustive",
          "For every (source, target) pair of the hostile pool x 36 targets (quick, exhaustive over the pools) and 4e5 generated sources (thorough): a conversion that succeeds under no_explicit_cast / no_data_loss / both must succeed without flags with an equal same-type value; no_data_loss results must keep the listed promises; no_explicit_cast results must stay inside the documented primitive group.",
          "Trusted: promise_ndl()/src_groups() in vmon/props/c12.py (written from docs/en/references/options.md). Four mechanism-keyed known findings. Data classes receive runtime flags through __from__ (type_transform keeps a class's own options).", "§4 C12"),
+ "C19": ("purity monitor: structural input snapshots around every parse (P1), container id-graphs + post-parse mutation of defaulted fields (P2), and call histories whose probe outcome is compared with a fresh process forked from an import-only zygote (P3)",
+         "P1: no input object is modified by an accepted or rejected parse, on every route and policy; P2: nested mutable defaults (plain, Field(default), default_factory; Schema, DataClass, functions) are never shared between instances, calls and the declaration; P3: the outcome of a probe parse after a history of valid/invalid/collecting parses equals its outcome in a process that never ran the history.",
+         "Trusted: values.snapshot / containers() / the fork-based helper (vmon/props/c19_helper.py). One known finding (typing's shared ForwardRef objects carry utype's evaluated state across same-named classes of different modules).", "§4 C19"),
  "C04": ("exception-class monitor at the API boundary + sys.monitoring logical-step watchdog with loop-signature confirmation",
          "Every rejected call must raise ParseError; every call must finish within 3e6 LINE events in utype/ (confirmed at 3e7 with a <=12-line loop signature); failing calls must not have entered the function body / __validate__.",
          "Bounded restatement of 'never loops': budget 3 orders of magnitude above the largest terminating call seen (reported in evidence). C-level hangs are only seen by the wall-clock net (inconclusive).", "§4 C04"),
